@@ -240,6 +240,8 @@ fn flip_oracle(ool: bool, rate_bits: u32, codes: &[u64], real: &str) -> Option<S
     let rate = f32::from_bits(rate_bits);
     if !ool && rate == 0.0 && out != codes { return Some("rate 0 must be the identity".into()); }
     if !ool && rate >= 1.0 && (0..out.len()).any(|i| out[i] != neg_code(codes[i])) { return Some("rate >= 1 must flip every gene".into()); }
+    // the length-scaled variant on a single gene: 1/length = 1, a flip rate >= 1
+    if ool && codes.len() == 1 && out[0] != neg_code(codes[0]) { return Some("WithOneOverLength on a genome of one gene has rate 1/1 = 1: the gene must be flipped".into()); }
     None
 }
 
@@ -397,6 +399,43 @@ fn case_flip(d: &mut crate::driver::Driver, r: &mut Report, seed: u64, i: u64, m
     exec_flip(d, r, seed, i, mutant, fl, ool, rate_bits, codes, script);
 }
 
+/// long genomes for the length-scaled rate: 1/length must keep following the length beyond 2^16 genes (a rate
+/// computed through a narrower integer type saturates there); draws are scripted onto the decision boundary
+const LONG_LENGTHS: [usize; 6] = [65_535, 65_536, 65_537, 70_001, 131_072, 200_003];
+fn case_flip_long(d: &mut crate::driver::Driver, r: &mut Report, seed: u64, i: u64, j: u64, mutant: Mutant) {
+    let n = LONG_LENGTHS[(j as usize) % LONG_LENGTHS.len()];
+    let fl = if j % 2 == 0 { Flavour::Bits } else { Flavour::VecBool };
+    let mut g = SplitMix::derive(seed ^ 0x10B6, i);
+    let codes: Vec<u64> = (0..n).map(|_| g.below(2)).collect();
+    // every boundary word around floor(2^24 / n), and around the value a 16-bit length would give
+    let low = (1u64 << 40) - 1;
+    let mut script = vec![];
+    for k in [((1u64 << 24) as f64 / n as f64).floor() as u64, (1u64 << 24) / 65_535, (1u64 << 24) / 65_536] {
+        script.extend([k << 40, (k << 40) | low, (k.saturating_sub(1)) << 40 | low, (k + 1) << 40, ((k + 1) << 40) | low]);
+    }
+    r.hit("WithOneOverLength on a long genome (65535 .. 200003 genes)");
+    // The interactive model would need n round trips through nested continuations (quadratic); for these lengths the
+    // model supplies the rate (fl32(1/fl32(n)), `mut oolrate n`) and the per-gene rule of `withRate` - one f32 draw per
+    // gene, flipped iff draw < rate - is replayed here on the shadow generator.
+    let mut real_rng = LinRng::new(script, SplitMix::derive(seed ^ 0xC11, i));
+    let mut shadow = real_rng.clone();
+    let real = run_flip(fl, true, 0, &codes, &mut real_rng, mutant);
+    let req = format!("mut oolrate {n}");
+    let reply = d.ask(&req);
+    let rate_bits: u32 = reply.trim_end_matches(" native-mismatch").parse().unwrap_or(0);
+    let rate = f32::from_bits(rate_bits);
+    let want: Vec<u64> = codes.iter().map(|c| { let x: f32 = shadow.random(); if x < rate { 1 - *c } else { *c } }).collect();
+    let want_s = format!("ok {}", gtok(&want));
+    r.case(&format!("{req}#{i}"), true);
+    let same = real_rng.next_u64() == shadow.next_u64();
+    if reply.ends_with("native-mismatch") { r.disagree(json!({"case": req, "what": "exact fl32(1/fl32(n)) disagrees with hardware Float32", "impl": reply})); }
+    if real != want_s || !same {
+        let flips = |s: &str| parse_genome(s.split(' ').nth(1).unwrap_or("-")).iter().zip(&codes).filter(|(a, b)| a != b).count();
+        r.violate(json!({"case": format!("WithOneOverLength on a genome of {n} genes ({fl:?}), boundary draws scripted, seed index {i}"), "real": format!("{} genes flipped", flips(&real)), "spec": format!("{} genes flipped with rate 1/{n} (bits {rate_bits})", flips(&want_s)),
+            "same_generator_state_after": same, "what": "the genes flipped are not those whose draw lies below 1/length: the length-scaled rate does not follow the length"}));
+    }
+}
+
 /// exhaustive decision-boundary scope: every pool rate x every boundary word x every flavour, one gene
 fn case_flip_boundary(d: &mut crate::driver::Driver, r: &mut Report, seed: u64, i: u64, j: u64, mutant: Mutant) {
     let fl = [Flavour::VecBool, Flavour::VecI32, Flavour::Bits, Flavour::VectorI32][(j % 4) as usize];
@@ -516,8 +555,12 @@ fn case_gene(d: &mut crate::driver::Driver, r: &mut Report, seed: u64, i: u64, m
 }
 
 fn case_closep(d: &mut crate::driver::Driver, r: &mut Report, n: usize, mutant: Mutant) {
-    let gg = ProbeInstr { n }.into_gene_generator();
-    let mut real = close_bits_of(&gg);
+    let built = catch_unwind(AssertUnwindSafe(|| close_bits_of(&ProbeInstr { n }.into_gene_generator())));
+    let Ok(mut real) = built else {
+        r.case(&format!("mut closep {n}"), true);
+        r.violate(json!({"case": format!("mut closep {n}"), "real": "panic", "what": format!("with_uniform_close_probability panicked for {n} instructions (the default close probability 1/(n+1) must exist for every instruction-set size)")}));
+        return;
+    };
     if mutant == Mutant::CloseOffByOne { real = (1.0f32 / n as f32).to_bits(); }
     let req = format!("mut closep {n}");
     let model = d.ask(&req);
@@ -676,8 +719,11 @@ pub fn run_rates_with(cfg: &Cfg, mutant: Mutant) -> Report {
     let n: u64 = if cfg.thorough { 1_000_000 } else { 30_000 };
     let n_close: u64 = if cfg.thorough { 400_000 } else { 10_000 };
     let n_bound: u64 = 4 * 7 * F32_POOL.len() as u64;
-    let mut rep = run_sharded(&cfg.driver, cfg.threads, n + n_close + 64 + n_bound, || Report::new("rates", RULE_RATES), |d, r, i| {
-        if i < n {
+    let n_long: u64 = if cfg.thorough { 24 } else { 6 };
+    let mut rep = run_sharded(&cfg.driver, cfg.threads, n + n_close + 64 + n_bound + n_long, || Report::new("rates", RULE_RATES), |d, r, i| {
+        if i >= n + n_close + 64 + n_bound {
+            case_flip_long(d, r, seed, i, i - (n + n_close + 64 + n_bound), mutant)
+        } else if i < n {
             match i % 5 { 0 => case_flip(d, r, seed, i, mutant), 1 | 2 => case_umad(d, r, seed, i, mutant, true), 3 => case_gene(d, r, seed, i, mutant), _ => case_bits(d, r, seed, i) }
         } else if i < n + n_close {
             case_closep(d, r, (i - n + 1) as usize, mutant)
